@@ -105,7 +105,25 @@ def run_fit(case, R):
         R.count(f'predict raised {type(e).__name__}')
         R.ok('C01.raised')
         return
-    ok = conds.check_affiliation(R, 'C01.M2', post, shape=s.aff_shape, eps=0.0, mask=s.mask if pk else None,
+    with instr.disarmed():
+        active = np.broadcast_to(models.weight_array(kind, model, s.K) > 0, s.aff_shape)      # classes with prior mass
+    if not active.all():
+        R.count('model with zero prior weights (columns without prior mass must be all-zero)')
+        # float range: if every class that has prior mass lies further below the column maximum than the exp range of the
+        # dtype, the un-normalised masses underflow (same reading as the C01.M1 contract); counted, not judged
+        try:
+            with instr.disarmed(), np.errstate(all='ignore'):
+                lp = np.asarray(models.component_log_pdf(kind, model, s.data))
+            act = active & (np.broadcast_to(s.mask, s.aff_shape) if pk else True)
+            top_act = np.where(act, lp, -np.inf).max(axis=-2)
+            lim = -0.95 * float(np.log(np.finfo(lp.dtype if lp.dtype.kind == 'f' else np.float64).tiny))
+            if (np.isfinite(top_act) & (lp.max(axis=-2) - top_act > lim)).any():
+                R.count('zero-weight class dominates beyond the exp range of the dtype (not judged)')
+                R.undecided('C01.M2', 'outside float range')
+                return
+        except Exception:
+            pass
+    ok = conds.check_affiliation(R, 'C01.M2', post, shape=s.aff_shape, eps=0.0, mask=s.mask if pk else None, active=active,
                                  key=f'predict/{kind}', where=f'{kind}.predict')
     if ok:
         try:
@@ -135,7 +153,7 @@ def run_fit(case, R):
         R.count(f'fit_predict raised {type(e).__name__}')
         R.ok('C01.raised')
         return
-    ok = conds.check_affiliation(R, 'C01.M2', fp, shape=s.aff_shape, eps=0.0, mask=s.mask if kind == 'cacgmm' else None,
+    ok = conds.check_affiliation(R, 'C01.M2', fp, shape=s.aff_shape, eps=0.0, mask=s.mask if kind == 'cacgmm' else None, active=active,
                                  key=f'fit_predict/{kind}', where=f'{kind}.fit_predict')
     if ok:
         dev = float(np.abs(fp - post).max())
